@@ -77,7 +77,7 @@ def rule_r1_r2(rep, program: Program, prop=PROP, ids=("R1", "R2")):
         if isinstance(st, ast.Assign) and len(st.targets) == 1 and isinstance(st.targets[0], ast.Name):
             v = st.value
             if isinstance(v, ast.Call) and isinstance(v.func, ast.Attribute) and v.func.attr == "copy" and isinstance(v.func.value, ast.Name) and cur.get(v.func.value.id) == "param":
-                cur[st.targets[0].id] = "copy"
+                cur[st.targets[0].id] = f"copy#{st.lineno}"  # which copy: aliases of one copy share the tag
             elif isinstance(v, ast.Name) and v.id in cur:
                 cur[st.targets[0].id] = cur[v.id]
             else:
@@ -103,10 +103,10 @@ def rule_r1_r2(rep, program: Program, prop=PROP, ids=("R1", "R2")):
     x = call.args[0]
     kind = env_at_call.get(x.id) if isinstance(x, ast.Name) else None
     r1.inst({"site": "Integrator.step", "stepped object": norm(x), "is": kind})
-    if kind != "copy":
+    if not (kind or "").startswith("copy"):
         r1.violate(prop, "Integrator.step:steps-argument-in-place", f"_step is applied to `{norm(x)}`, which is {kind or 'not'} a copy of the argument: the caller's state object is modified in place", node=call, file=f.file)
     rv = ret[0].value
-    if not (isinstance(rv, ast.Name) and isinstance(x, ast.Name) and rv.id == x.id):
+    if not (isinstance(rv, ast.Name) and isinstance(x, ast.Name) and ret[1].get(rv.id, "?") == kind and (kind or "").startswith("copy")):
         r1.violate(prop, f"Integrator.step:returns:{norm(rv)}", "step() does not return the object it integrated", node=ret[0], file=f.file)
     for k in program.subclasses("Integrator"):
         r1.inst({"class": k.name, "step resolved to": k.resolve("step").qualname})
